@@ -752,10 +752,3 @@ Qed.
 Lemma expected_at_atomic : forall k t ms,
   expected_at k (fun _ => ms) (fun _ => true) t = expected k ms t.
 Proof. intros. rewrite expected_at_const, filter_true. reflexivity. Qed.
-
-Theorem c13_either_ok_iff : forall c h1 h2 observed,
-  c13_either_ok c h1 h2 observed = true <->
-  observed = spec_outputs c h1 \/ observed = spec_outputs c h2.
-Proof.
-  intros. unfold c13_either_ok. rewrite orb_true_iff, !c13_ok_iff. tauto.
-Qed.
